@@ -945,9 +945,11 @@ int _vnacal_new_solve_internal(vnacal_new_t *vnp)
 	    }
 	    vpmrp->vpmr_frequencies = frequencies;
 	}
-	(void)memcpy((void *)vpmrp->vpmr_frequency_vector,
-		(void *)vnp->vn_frequency_vector,
-		frequencies * sizeof(double));
+	if (frequencies > 0) {
+	    (void)memcpy((void *)vpmrp->vpmr_frequency_vector,
+		    (void *)vnp->vn_frequency_vector,
+		    frequencies * sizeof(double));
+	}
 	assert(vnss.vnss_p_vector[index] != NULL);
 	vpmrp->vpmr_gamma_vector = vnss.vnss_p_vector[index];
 	vnss.vnss_p_vector[index] = NULL;
